@@ -14,7 +14,9 @@ import (
 	"sort"
 	"strconv"
 	"strings"
+	"os/signal"
 	"sync"
+	"sync/atomic"
 	"syscall"
 	"time"
 )
@@ -39,6 +41,8 @@ type Driver struct {
 	CrashSkipped map[string]int
 	Extra        map[string]any // extra coverage keys
 	known        *KnownFile
+	interrupted  atomic.Bool
+	planned      int
 	replayN      int
 	Results      []Result // kept only when Post != nil
 }
@@ -237,6 +241,9 @@ func (d *Driver) Finish() int {
 	if distinct < d.Chk.MinNontrivial && nNew == 0 {
 		inconclusive = fmt.Sprintf("only %d distinct non-trivial cases observed (need %d)", distinct, d.Chk.MinNontrivial)
 	}
+	if d.interrupted.Load() && nNew == 0 {
+		inconclusive = fmt.Sprintf("run interrupted after %d of %d planned cases (no violation among the executed ones)", d.Evaluations, d.planned)
+	}
 	if len(d.Inconclusive) > 0 && nNew == 0 {
 		inconclusive = "inconclusive cases: " + strings.Join(d.Inconclusive, "; ")
 	}
@@ -332,6 +339,15 @@ func (d *Driver) runWorkers() {
 	var cases []Case
 	chk.Gen(d.Seed, d.Tier, func(c Case) { cases = append(cases, c) })
 	d.Logf("generated %d cases", len(cases))
+	d.planned = len(cases)
+	sigc := make(chan os.Signal, 1)
+	signal.Notify(sigc, syscall.SIGTERM, syscall.SIGINT)
+	go func() {
+		<-sigc
+		d.Logf("interrupted: finishing cases in flight and writing partial evidence")
+		d.interrupted.Store(true)
+	}()
+	defer signal.Stop(sigc)
 	nw := chk.Workers
 	if nw == 0 {
 		nw = runtime.GOMAXPROCS(0)
@@ -370,6 +386,9 @@ func (d *Driver) workerLoop(chunks <-chan []Case) {
 		}
 	}()
 	for chunk := range chunks {
+		if d.interrupted.Load() {
+			continue // drain: the run was asked to stop (SIGTERM/SIGINT)
+		}
 		for len(chunk) > 0 {
 			if w == nil {
 				var err error
